@@ -10,16 +10,17 @@ import (
 )
 
 // Value is one of:
-//   *Term            bool / integer / float scalars (possibly symbolic)
-//   Str              strings (concrete length, bytes possibly symbolic)
-//   *Value           pointers (nil = (*Value)(nil))
-//   Struct, Array    aggregates (value semantics: copied on load/store)
-//   Slice            slices (share backing storage like Go slices)
-//   *MapObj, *ChanObj
-//   Iface            interface values (T == nil => nil interface)
-//   *ssa.Function, *Closure, *ssa.Builtin, *NativeFn (nil func = FuncNil{})
-//   Tuple            multiple results
-//   *Native          engine-native objects (errors, hashes, contexts, opaque library objects)
+//
+//	*Term            bool / integer / float scalars (possibly symbolic)
+//	Str              strings (concrete length, bytes possibly symbolic)
+//	*Value           pointers (nil = (*Value)(nil))
+//	Struct, Array    aggregates (value semantics: copied on load/store)
+//	Slice            slices (share backing storage like Go slices)
+//	*MapObj, *ChanObj
+//	Iface            interface values (T == nil => nil interface)
+//	*ssa.Function, *Closure, *ssa.Builtin, *NativeFn (nil func = FuncNil{})
+//	Tuple            multiple results
+//	*Native          engine-native objects (errors, hashes, contexts, opaque library objects)
 type Value interface{}
 
 type Struct []Value
